@@ -184,6 +184,14 @@ def run(prog, rep, tier):
             if "evtx" in k_.lower() or "ts_pass_filters" in k_:
                 nA += 1
                 rep.examined(R109, "%s|%s" % (rid_, k_), sample={"rule": rid_, "instance": k_})
+    # ... and the window is applied to record times only: no shortcut from the file's modification time (C03 R3.9)
+    for (rid_, key_, what_, det_) in _s3A.violations:
+        if rid_ == "R3.9" and ("evtx" in key_.lower()):
+            rep.violation(R109, key_.split("|", 1)[1], what_)
+    for k_ in sorted(_s3A.rules.get("R3.9", {}).get("keys", ())):
+        if "evtx" in k_.lower():
+            nA += 1
+            rep.examined(R109, "R3.9|%s" % k_, sample={"rule": "R3.9", "instance": k_})
     if nA < 1:
         raise CheckerError("R10.9: no evtx instance among the C03 predicate rules")
 
